@@ -630,8 +630,52 @@ pub fn run_embed(quick: bool, out: &str) -> Value {
         panics += (res == "panic") as u64;
         t.ev(json!({"op":"text","pw":p.id,"ttl":ttl,"ovl":ovl,"got_n":got.len(),"res":res,"why":why,"text":text,"begin":p.m.begin,"end":p.m.end}));
     }
+    // very short bodies between valid markers: every base-62 string of up to 3 characters (all 1- and 2-byte bodies and
+    // more), sampled strings of 4 and 5 characters (3-byte bodies), with and without an age limit.  About one in 256
+    // passes the one-byte seed check and reaches the header parser.
+    let alphabet: Vec<char> = "0123456789ABCDEFGHIJKLMNOPQRSTUVWXYZabcdefghijklmnopqrstuvwxyz".chars().collect();
+    let mut short_members = 0u64;
+    for (pi, p) in pws.iter().enumerate().take(if quick { 3 } else { 8 }) {
+        for ttl in [NO_LIMIT, 50] {
+            let now = 2000 + pi as u32;
+            set_hour(now, &mut rng);
+            let (mut members, mut fam_panics, mut found) = (0u64, 0u64, 0u64);
+            let mut first_bad = String::new();
+            let mut probe = |body: &str, members: &mut u64, fam_panics: &mut u64, found: &mut u64, first_bad: &mut String| {
+                let text = format!("{}{}{}", p.m.begin, body, p.m.end);
+                let (res, got, _) = decode(&p.ser, &text, ttl);
+                *members += 1;
+                if res == "panic" {
+                    *fam_panics += 1;
+                    if first_bad.is_empty() {
+                        *first_bad = text;
+                    }
+                } else if !got.is_empty() {
+                    *found += 1;
+                }
+            };
+            probe("", &mut members, &mut fam_panics, &mut found, &mut first_bad);
+            for a in &alphabet {
+                probe(&a.to_string(), &mut members, &mut fam_panics, &mut found, &mut first_bad);
+                for b in &alphabet {
+                    probe(&format!("{}{}", a, b), &mut members, &mut fam_panics, &mut found, &mut first_bad);
+                    for c in &alphabet {
+                        probe(&format!("{}{}{}", a, b, c), &mut members, &mut fam_panics, &mut found, &mut first_bad);
+                    }
+                }
+            }
+            for _ in 0..(if quick { 60_000 } else { 600_000 }) {
+                let len = rng.gen_range(4..=5);
+                let body: String = (0..len).map(|_| alphabet[rng.gen_range(0..62)]).collect();
+                probe(&body, &mut members, &mut fam_panics, &mut found, &mut first_bad);
+            }
+            short_members += members;
+            panics += fam_panics;
+            t.ev(json!({"op":"textfam","kind":"short-body","pw":p.id,"ttl":ttl,"members":members,"panics":fam_panics,"decoded_nonempty":found,"first_bad":first_bad}));
+        }
+    }
     let events = t.finish();
-    json!({"runs": embeds + wrong + texts, "steps": embeds + wrong + texts, "events": events, "embeds": embeds, "skipped": skipped, "wrongpw": wrong,
+    json!({"runs": embeds + wrong + texts, "steps": embeds + wrong + texts + short_members, "events": events, "embeds": embeds, "skipped": skipped, "wrongpw": wrong, "short_bodies": short_members,
            "texts": texts, "panics": panics, "overlap_password_search": searched, "sequences": seqs.len(),
            "candidate_beacons_lost": st.lost, "pools": [pool_be.len(), pool_eb.len(), pool_both.len()]})
 }
